@@ -35,8 +35,9 @@ func VerifNewLowMemPool(capacity int) VerifPool          { return verifPool{newL
 // monitored pool decorator: the harness sees every get/back of the pipeline's pool.
 type VerifPoolMonitor interface {
 	Got(e *Event)
-	Back(e *Event)     // before the event is handed back
-	BackDone(e *Event) // after the pool has taken it
+	Back(e *Event) any // before the event is handed back; the token identifies this return (the object may be handed
+	// out and returned again before BackDone of this return runs)
+	BackDone(tok any) // after the pool has taken it
 }
 
 type monitoredPool struct {
@@ -45,7 +46,7 @@ type monitoredPool struct {
 }
 
 func (m *monitoredPool) get(size int) *Event { e := m.inner.get(size); m.mon.Got(e); return e }
-func (m *monitoredPool) back(e *Event)       { m.mon.Back(e); m.inner.back(e); m.mon.BackDone(e) }
+func (m *monitoredPool) back(e *Event)       { tok := m.mon.Back(e); m.inner.back(e); m.mon.BackDone(tok) }
 func (m *monitoredPool) dump() string        { return m.inner.dump() }
 func (m *monitoredPool) inUse() int64        { return m.inner.inUse() }
 func (m *monitoredPool) waiters() int64      { return m.inner.waiters() }
